@@ -10,6 +10,7 @@ from engine import pat
 from engine.util import own_nodes, calls_with_nodes, where
 
 RULES = {
+    "R-01.14": "Unicode text is escaped like ASCII text: every decode() of the IDNA codec family returns _escapify(<label text>), the result of super().decode(), or the empty string - a label that contains '.' or '\\\\' printed unescaped by to_unicode() parses back as different labels",
     "R-01.1": "Name.labels is written only by __init__ and __setstate__, and every path from that store to a normal exit passes _validate_labels(self.labels); no Name is made by __new__/copy that skips the gate",
     "R-01.2": "_validate_labels raises LabelTooLong exactly for len(label) >= 64 and NameTooLong exactly for sum(len+1) >= 256",
     "R-01.3": "wire decoding: every seek target is strictly below every earlier pointer and the name's start; literal labels are < 64 octets; other label types raise; the loop consumes input on every iteration",
@@ -399,6 +400,21 @@ def run(model, rep, tier):
         rep.check(not un, "R-01.11", qn, where(fn_, un[0] if un else fn_.node), "the token reaches dns.name.from_text unescaped",
                   f"`{src(un[0])[:50]}` unescapes the token before dns.name.from_text runs its own escape state machine: escapes are interpreted twice" if un else "", stmt="single-unescape")
     rep.floor("R-01.11", n_np, 2)
+    # ---------------------------------------------------------------- R-01.14
+    codec = model.cls("dns.name.IDNACodec")
+    n14 = 0
+    for c14 in [codec] + model.subclasses(codec):
+        fd = c14.methods.get("decode")
+        if fd is None:
+            continue
+        for r14 in [r for r in ast.walk(fd.node) if isinstance(r, ast.Return) and r.value is not None]:
+            n14 += 1
+            v = r14.value
+            okk = (isinstance(v, ast.Constant) and v.value == "") or (isinstance(v, ast.Call) and src(v.func) in ("_escapify", "super().decode"))
+            rep.check(okk, "R-01.14", fd.qualname, where(fd, r14), f"returns `{src(v)[:40]}`",
+                      f"`return {src(v)[:60]}` hands out label text without _escapify: a label holding '.' or a backslash prints as if it were several labels (to_unicode() output no longer parses back to the same name)",
+                      stmt="decode-escapes")
+    rep.floor("R-01.14", n14, 7)
     rep.meta["explanation"] = (
         "Must-pass-through and who-may-write rules for the validation gate, normalised-bound rules for the 63/255 limits and the compression offset, a well-founded-measure argument for "
         "wire decoding (pointer strictly decreasing, loop consumes), and set comparison between the octets readers treat specially and the octets the writer escapes (both folded from the source). "
@@ -406,6 +422,10 @@ def run(model, rep, tier):
 
 
 WITNESSES = [
+    {"id": "c01-idna2003-strict-decode-unescaped", "rule": "R-01.14", "file": "dns/name.py", "expect": "fires",
+     "old": "            return _escapify(encodings.idna.ToUnicode(label))", "new": "            return encodings.idna.ToUnicode(label)"},
+    {"id": "c01-twin-idna2003-decode-via-local", "rule": "R-01.14", "file": "dns/name.py", "expect": "silent",
+     "old": "            return _escapify(encodings.idna.ToUnicode(label))", "new": "            ulabel = encodings.idna.ToUnicode(label)\n            return _escapify(ulabel)"},
     {"id": "c01-is-all-ascii-excludes-del", "rule": "R-01.13", "file": "dns/name.py", "expect": "fires",
      "old": "        if ord(c) > 0x7F:\n            return False", "new": "        if ord(c) >= 0x7F:\n            return False"},
     {"id": "c01-escapify-fast-path-lets-backslash-through", "rule": "R-01.5", "file": "dns/name.py", "expect": "fires",
